@@ -201,3 +201,8 @@ package model
 //@   ensures C08.analog: id == 0x2b ==> result.Analog == be32(content, 0)
 //@   ensures C08.wifi: id == 0x30 ==> result.WIFISignalStrength == content[0]
 //@   ensures C08.gnss: id == 0x31 ==> result.GNSSPositionNum == content[0]
+
+// Registration body: the layout depends on the protocol version of the header, which is one of the standard's
+// versions (2011, 2013, 2019) for every decoded message (Decode sets 2013 or 2019).
+//@ func (*T0x0100).Parse
+//@   requires version: jtMsg.Header.ProtocolVersion >= 1 && jtMsg.Header.ProtocolVersion <= 3
